@@ -326,3 +326,158 @@ func VerifC15_StopNotHeldUp() {
 	rt.Assert(atomic.LoadInt32(m.microTaskCnt) == 0, "stop/module-counter-zero")
 	rt.Reach("stopnotheldup-end")
 }
+
+// ---- O6: a full clearance queue: with the limit reached the scheduler stops
+// draining the queue, so a burst of submitters fills it; the next submitter
+// waits for room (or its max delay), it does not start over the limit.
+// Symbolically the queues hold one entry (the state is constructed directly),
+// natively they have their real size and the harness fills them. ----
+
+func VerifC15_FullClearanceQueue() {
+	rt.NoTimers()
+	rt.SchedYieldOnly(true)
+	const T = 2
+	if rt.Symbolic() {
+		mediumPriorityClearance = make(chan chan struct{}, 1)
+		lowPriorityClearance = make(chan chan struct{}, 1)
+	}
+	m := c15Setup(T)
+	low := rt.Bool("low")
+	queue := mediumPriorityClearance
+	if low {
+		queue = lowPriorityClearance
+	}
+	var mu sync.Mutex
+	gauge, maxGauge, runs := 0, 0, 0
+	gate := make(chan struct{})
+	entered := make(chan struct{}, T)
+	var wg sync.WaitGroup
+	submit := func(holder bool) {
+		wg.Add(1)
+		go func() {
+			defer wg.Done()
+			fn := func(context.Context) error {
+				mu.Lock()
+				gauge++
+				runs++
+				if gauge > maxGauge {
+					maxGauge = gauge
+				}
+				mu.Unlock()
+				if holder {
+					entered <- struct{}{}
+				}
+				<-gate
+				mu.Lock()
+				gauge--
+				mu.Unlock()
+				return nil
+			}
+			if low {
+				_ = m.RunLowPriorityMicroTask("t", time.Hour, fn)
+			} else {
+				_ = m.RunMicroTask("t", time.Hour, fn)
+			}
+		}()
+	}
+	for i := 0; i < T; i++ {
+		submit(true)
+	}
+	for i := 0; i < T; i++ {
+		<-entered // the limit is reached by regularly admitted microtasks
+	}
+	// fill the queue
+	waiters := cap(queue)
+	for i := 0; i < waiters; i++ {
+		submit(false)
+	}
+	for i := 0; i < 200 && len(queue) < cap(queue); i++ {
+		if rt.Symbolic() {
+			rt.Yield()
+		} else {
+			time.Sleep(10 * time.Millisecond)
+		}
+	}
+	rt.Assume(len(queue) == cap(queue))
+	// some more submitters find the queue full
+	extra := 2
+	for i := 0; i < extra; i++ {
+		submit(false)
+	}
+	if rt.Symbolic() {
+		for i := 0; i < 4; i++ {
+			rt.Yield()
+		}
+	} else {
+		time.Sleep(100 * time.Millisecond)
+	}
+	mu.Lock()
+	g := maxGauge
+	mu.Unlock()
+	rt.Assert(g <= T, "fullqueue/at-most-threshold-running-with-a-full-queue")
+	close(gate)
+	wg.Wait()
+	rt.Assert(runs == T+waiters+extra, "fullqueue/every-function-ran-once")
+	rt.Assert(atomic.LoadInt32(m.microTaskCnt) == 0, "fullqueue/module-counter-zero-after-all-finished")
+	rt.Assert(atomic.LoadInt32(microTasks) == 0, "fullqueue/global-counter-zero-after-all-finished")
+	rt.Reach("fullqueue-end")
+}
+
+// ---- O7: a max delay of 0 means the documented default (1 s medium, 3 s
+// low), also for the signal variants: with the limit reached such a microtask
+// does not start before its default delay has expired ----
+
+func VerifC15_DefaultMaxDelay() {
+	rt.SchedYieldOnly(true)
+	m := c15Setup(2)
+	gate := make(chan struct{})
+	entered := make(chan struct{}, 2)
+	var wg sync.WaitGroup
+	wg.Add(3)
+	for i := 0; i < 2; i++ {
+		go func() {
+			defer wg.Done()
+			_ = m.RunMicroTask("holder", time.Hour, func(context.Context) error {
+				entered <- struct{}{}
+				<-gate
+				return nil
+			})
+		}()
+	}
+	<-entered
+	<-entered
+	var started int32
+	variant := rt.Choice("variant", 4)
+	rt.Region("C15-signal-variant-max-delay-zero", variant >= 2)
+	go func() {
+		defer wg.Done()
+		fn := func(context.Context) error {
+			atomic.StoreInt32(&started, 1)
+			return nil
+		}
+		switch variant {
+		case 0:
+			_ = m.RunMicroTask("third", 0, fn)
+		case 1:
+			_ = m.RunLowPriorityMicroTask("third", 0, fn)
+		case 2:
+			done := m.SignalMicroTask(0)
+			atomic.StoreInt32(&started, 1)
+			done()
+		case 3:
+			done := m.SignalLowPriorityMicroTask(0)
+			atomic.StoreInt32(&started, 1)
+			done()
+		}
+	}()
+	time.Sleep(500 * time.Millisecond)
+	rt.Assert(atomic.LoadInt32(&started) == 0, "defaultdelay/not-started-over-the-limit-before-the-default-delay")
+	time.Sleep(3 * time.Second)
+	rt.Assert(atomic.LoadInt32(&started) == 1, "defaultdelay/started-after-the-default-delay")
+	close(gate)
+	wg.Wait()
+	time.Sleep(1100 * time.Millisecond) // the scheduler picks up the abandoned clearance request (recheck tick)
+	rt.Assert(atomic.LoadInt32(m.microTaskCnt) == 0, "defaultdelay/module-counter-zero-after-all-finished")
+	rt.Assert(atomic.LoadInt32(microTasks) == 0, "defaultdelay/global-counter-zero-after-all-finished")
+	rt.Reach("defaultdelay-end")
+}
